@@ -4,6 +4,8 @@ import (
 	"errors"
 	"fmt"
 	"path/filepath"
+	"runtime"
+	"sync/atomic"
 
 	kv "github.com/XiXi-2024/xixi-kv"
 	"github.com/XiXi-2024/xixi-kv/vhook"
@@ -20,13 +22,13 @@ func init() { core.Register(c17{}) }
 func (c17) ID() string    { return "C17" }
 func (c17) Level() string { return "exploration" }
 func (c17) Rule() string {
-	return "cases = generated histories (overwrite/delete/batch mixes, batches overflowing the limit, put+delete of one key inside a batch, deletes of absent keys, oversized single records, merges + adopting restarts, several restarts; DataFileMergeRatio 0) ; after EVERY step Stat() is compared with values recomputed independently: KeyNum vs model size, DataFileNum vs number of *.data files, 0 <= ReclaimableSize <= DiskSize, DiskSize-ReclaimableSize vs the bytes (chunk headers + payload) of the live record of every live key obtained by decoding all data files with vfmt and applying the recovery rules (latest record wins, tombstones delete, batch records count only with their sealing record); every data file whose logical size exceeds DataFileSize must hold exactly one record (plus a batch sealing record); Merge must never be refused with ErrNoEnoughSpaceForMerge/ErrMergeRatioUnreached; every fourth case additionally restarts from a process-death image taken inside a large batch (records without their sealing record on disk) and compares the recovered counters the same way. Non-trivial: history with >=1 batch, >=1 restart, >=1 merge and >=50 Stat comparisons; distinct = hash of (config, op list)"
+	return "cases = generated histories (overwrite/delete/batch mixes, batches overflowing the limit, put+delete of one key inside a batch, deletes of absent keys, oversized single records, merges + adopting restarts, several restarts; DataFileMergeRatio 0) ; after EVERY step Stat() is compared with values recomputed independently: KeyNum vs model size, DataFileNum vs number of *.data files, 0 <= ReclaimableSize <= DiskSize, DiskSize-ReclaimableSize vs the bytes (chunk headers + payload) of the live record of every live key obtained by decoding all data files with vfmt and applying the recovery rules (latest record wins, tombstones delete, batch records count only with their sealing record); every data file whose logical size exceeds DataFileSize must hold exactly one record (plus a batch sealing record); Merge must never be refused with ErrNoEnoughSpaceForMerge/ErrMergeRatioUnreached; every fourth case additionally restarts from a process-death image taken inside a large batch (records without their sealing record on disk) and compares the recovered counters the same way. Non-trivial: history with >=1 batch, >=1 restart, >=1 merge and >=50 Stat comparisons; distinct = hash of (config, op list) In every fourth case a second goroutine calls Stat in a loop while the writer executes puts, deletes and batches that change the key count: each answer must equal, as a whole tuple, the counters of one of the quiescent states between the start and the return of that call (the writer's own Stat between two operations)."
 }
 func (c17) Assumptions() []string {
 	return []string{"vfmt decodes the files independently of the engine's reader (cross-validated by C11)", "for open mmap files the logical size is taken from the hooked write events (the physical file is pre-extended)"}
 }
 func (c17) Required() []string {
-	return []string{"stat_comparisons", "files_over_limit_checked", "restarts", "ops_merge", "ops_batch", "stat_after_restart"}
+	return []string{"stat_comparisons", "files_over_limit_checked", "restarts", "ops_merge", "ops_batch", "stat_after_restart", "concurrent_stat_calls_overlapping_a_write"}
 }
 
 func (c17) Cases(tier string, seed uint64) []core.Case {
@@ -213,6 +215,92 @@ func (c17) Run(c core.Case, w *core.Worker) core.Result {
 				s.Exec(core.Op{Kind: "restart"})
 			}
 		}
+	}
+	if c.Index%4 == 1 && !s.Dead && !violated && s.DB != nil {
+		// Stat from a second goroutine WHILE writers run: every answer must be, as a whole, the
+		// counters of one state that existed between the start and the return of that call
+		// (writers change all counters inside one critical section; an open batch holds it
+		// until Commit). The truth for each quiescent state is Stat taken by the writer
+		// itself between two operations - exactly what the sequential part above validates.
+		db := s.DB
+		states := []kv.Stat{*db.Stat()}
+		var pub atomic.Int64
+		pub.Store(1)
+		type obsT struct {
+			a, b int64
+			st   kv.Stat
+		}
+		var observed []obsT
+		var opanic any
+		stop, done := make(chan struct{}), make(chan struct{})
+		go func() {
+			defer close(done)
+			defer func() { opanic = recover() }()
+			for len(observed) < 200000 {
+				select {
+				case <-stop:
+					return
+				default:
+				}
+				a := pub.Load()
+				st := db.Stat()
+				b := pub.Load()
+				observed = append(observed, obsT{a, b, *st})
+				runtime.Gosched()
+			}
+		}()
+		prevAfter := s.AfterOp
+		s.AfterOp = func(i int, op core.Op) {
+			states = append(states, *db.Stat())
+			pub.Store(int64(len(states)))
+		}
+		for i := r.Range(25, 60); i > 0 && !s.Dead; i-- {
+			var op core.Op
+			switch c := r.Intn(10); {
+			case c < 3:
+				// a batch that changes the number of keys: fresh keys in, some existing keys out
+				op = core.Op{Kind: "batch"}
+				for j := r.Range(1, 12); j > 0; j-- {
+					op.Sub = append(op.Sub, core.Op{Kind: "put", Key: []byte(fmt.Sprintf("cs%d.%d", i, j)), VLen: r.Range(0, 400), VSeed: r.U64()})
+				}
+				op.Sub = append(op.Sub, core.Op{Kind: "del", Key: g.Key()})
+			case c < 4:
+				op = bigBatch(r, g, sc.Cfg.DataFileSize)
+			case c < 7:
+				op = core.Op{Kind: "put", Key: []byte(fmt.Sprintf("cs%d", r.Intn(40))), VLen: r.Range(0, 3000), VSeed: r.U64()}
+			case c < 9:
+				op = core.Op{Kind: "del", Key: []byte(fmt.Sprintf("cs%d", r.Intn(40)))}
+			default:
+				op = core.Op{Kind: "put", Key: g.Key(), VLen: r.Range(0, 40000), VSeed: r.U64()}
+			}
+			s.Exec(op)
+		}
+		close(stop)
+		<-done
+		s.AfterOp = prevAfter
+		if opanic != nil {
+			fail("panic", fmt.Sprintf("Stat from a second goroutine panicked: %v", opanic))
+		}
+		nOverlap := 0
+		for _, o := range observed {
+			lo, hi := o.a-1, o.b
+			if hi > int64(len(states))-1 {
+				hi = int64(len(states)) - 1
+			}
+			if o.b > o.a {
+				nOverlap++
+			}
+			ok := false
+			for j := lo; j <= hi && !ok; j++ {
+				ok = states[j] == o.st
+			}
+			if !ok && !violated {
+				fail("concurrent-stat", fmt.Sprintf("Stat called from a second goroutine returned %+v, which is none of the %d states that existed between its start and its return (first %+v, last %+v)", o.st, hi-lo+1, states[lo], states[hi]))
+			}
+		}
+		res.Add("concurrent_stat_calls", int64(len(observed)))
+		res.Add("concurrent_stat_calls_overlapping_a_write", int64(nOverlap))
+		checkStat("after the concurrent phase")
 	}
 	if c.Index%4 == 2 && !s.Dead && !violated {
 		// restart after a process death inside a large batch: the image keeps batch records
